@@ -118,6 +118,11 @@ def build_index(levels, n):
         return pd.RangeIndex(n)
     if len(levels) == 1:
         lv = levels[0]
+        if lv.get("range") and lv["cells"]:
+            # the same labels as a RangeIndex (start, stop, step): e.g. what df.iloc[::3] leaves behind
+            start, step, r = lv["range"]
+            last = lv["cells"][-1]
+            return pd.RangeIndex(start, last + (r if step > 0 else -r), step, name=lv.get("name"))
         return pd.Index(build_array(lv), name=lv.get("name"))
     return pd.MultiIndex.from_arrays([pd.Index(build_array(lv)) for lv in levels],
                                      names=[lv.get("name") for lv in levels])
